@@ -155,6 +155,44 @@ FUNCS = {
                              direct=lambda a: _substrate_direct(a)),
     "substrate_decode": Func(model=lambda m, a: m.call("substrate_decode", 2, a[0], a[1]),
                              impl=lambda a: SubstrateEd25519AddrDecoder.DecodeAddr(a[1], ss58_format=a[0])),
+    # ---- Bech32 / SegWit / CashAddr families (Model/AddrText.v on the codec models of C10)
+    # [hrp, pub_c]
+    "atom_encode": Func(model=lambda m, a: m.call("atom_encode", a[0], a[1]), impl=lambda a: AtomAddrEncoder.EncodeKey(a[1], hrp=a[0]),
+                        direct=lambda a: expect(AtomAddrDecoder.DecodeAddr(AtomAddrEncoder.EncodeKey(a[1], hrp=a[0]), hrp=a[0]), h160(a[1]), "ATOM")),
+    "atom_decode": Func(model=lambda m, a: m.call("atom_decode", a[0], a[1]), impl=lambda a: AtomAddrDecoder.DecodeAddr(a[1], hrp=a[0])),
+    # [0 P-chain | 1 X-chain, pub_c]
+    "avax_encode": Func(model=lambda m, a: m.call("avax_encode", a[0], a[1]),
+                        impl=lambda a: (AvaxPChainAddrEncoder if a[0] == 0 else AvaxXChainAddrEncoder).EncodeKey(a[1]),
+                        direct=lambda a: expect((AvaxPChainAddrDecoder if a[0] == 0 else AvaxXChainAddrDecoder).DecodeAddr(
+                            (AvaxPChainAddrEncoder if a[0] == 0 else AvaxXChainAddrEncoder).EncodeKey(a[1])), h160(a[1]), "AVAX")),
+    "avax_decode": Func(model=lambda m, a: m.call("avax_decode", a[0], a[1]),
+                        impl=lambda a: (AvaxPChainAddrDecoder if a[0] == 0 else AvaxXChainAddrDecoder).DecodeAddr(a[1])),
+    "egld_encode": Func(model=lambda m, a: m.call("egld_encode", a[0]), impl=lambda a: EgldAddrEncoder.EncodeKey(a[0]),
+                        direct=lambda a: expect(EgldAddrDecoder.DecodeAddr(EgldAddrEncoder.EncodeKey(a[0])), a[0], "EGLD")),
+    "egld_decode": Func(model=lambda m, a: m.call("egld_decode", a[0]), impl=lambda a: EgldAddrDecoder.DecodeAddr(a[0])),
+    "zil_encode": Func(model=lambda m, a: m.call("zil_encode", a[0]), impl=lambda a: ZilAddrEncoder.EncodeKey(a[0]),
+                       direct=lambda a: expect(ZilAddrDecoder.DecodeAddr(ZilAddrEncoder.EncodeKey(a[0])), hashlib.sha256(a[0]).digest()[-20:], "ZIL")),
+    "zil_decode": Func(model=lambda m, a: m.call("zil_decode", a[0]), impl=lambda a: ZilAddrDecoder.DecodeAddr(a[0])),
+    # [0 inj | 1 okex | 2 one, pub_c, pub_u]
+    "ethb32_encode": Func(model=lambda m, a: m.call("ethb32_encode", a[0], a[2]), impl=lambda a: ETHB32[a[0]][0].EncodeKey(a[1]),
+                          direct=lambda a: expect(ETHB32[a[0]][1].DecodeAddr(ETHB32[a[0]][0].EncodeKey(a[1])),
+                                                  oracles.keccak256(a[2][1:])[12:], "ETH-bech32")),
+    "ethb32_decode": Func(model=lambda m, a: m.call("ethb32_decode", a[0], a[1]), impl=lambda a: ETHB32[a[0]][1].DecodeAddr(a[1])),
+    "p2wpkh_encode": Func(model=lambda m, a: m.call("p2wpkh_encode", a[0], a[1]), impl=lambda a: P2WPKHAddrEncoder.EncodeKey(a[1], hrp=a[0]),
+                          direct=lambda a: expect(P2WPKHAddrDecoder.DecodeAddr(P2WPKHAddrEncoder.EncodeKey(a[1], hrp=a[0]), hrp=a[0]), h160(a[1]), "P2WPKH")),
+    "p2wpkh_decode": Func(model=lambda m, a: m.call("p2wpkh_decode", a[0], a[1]), impl=lambda a: P2WPKHAddrDecoder.DecodeAddr(a[1], hrp=a[0])),
+    "p2tr_decode": Func(model=lambda m, a: m.call("p2tr_decode", a[0], a[1]), impl=lambda a: P2TRAddrDecoder.DecodeAddr(a[1], hrp=a[0])),
+    # [hrp, net_ver, pub_c]
+    "bch_p2pkh_encode": Func(model=lambda m, a: m.call("bch_p2pkh_encode", a[0], a[1], a[2]),
+                             impl=lambda a: BchP2PKHAddrEncoder.EncodeKey(a[2], hrp=a[0], net_ver=a[1]),
+                             direct=lambda a: expect(BchP2PKHAddrDecoder.DecodeAddr(BchP2PKHAddrEncoder.EncodeKey(a[2], hrp=a[0], net_ver=a[1]),
+                                                                                    hrp=a[0], net_ver=a[1]), h160(a[2]), "BCH-P2PKH")),
+    "bch_p2sh_encode": Func(model=lambda m, a: m.call("bch_p2sh_encode", a[0], a[1], a[2]),
+                            impl=lambda a: BchP2SHAddrEncoder.EncodeKey(a[2], hrp=a[0], net_ver=a[1]),
+                            direct=lambda a: expect(BchP2SHAddrDecoder.DecodeAddr(BchP2SHAddrEncoder.EncodeKey(a[2], hrp=a[0], net_ver=a[1]),
+                                                                                  hrp=a[0], net_ver=a[1]), h160(b"\x00\x14" + h160(a[2])), "BCH-P2SH")),
+    "bch_decode": Func(model=lambda m, a: m.call("bch_decode", a[0], a[1], a[2]),
+                       impl=lambda a: BchP2PKHAddrDecoder.DecodeAddr(a[2], hrp=a[0], net_ver=a[1])),
     # Taproot output key: [pub_c]
     "taproot_tweak": Func(model=lambda m, a: m.call("taproot_tweak", a[0]),
                           impl=lambda a: __import__("bip_utils.addr.P2TR_addr", fromlist=["_P2TRUtils"])._P2TRUtils.TweakPublicKey(
@@ -200,6 +238,11 @@ def _taproot_direct(a):
     if P2TRAddrDecoder.DecodeAddr(addr, hrp="bc") != want:
         return "P2TR decoder does not return the output key"
     return None
+
+
+ETHB32 = [(InjAddrEncoder, InjAddrDecoder), (OkexAddrEncoder, OkexAddrDecoder), (OneAddrEncoder, OneAddrDecoder)]
+# legal HRPs incl. ones containing the separator character '1' and digits (BIP-173: the LAST '1' separates)
+HRPS = ["cosmos", "bc", "tb", "ltc", "band", "a", "tb1", "a1b", "x1y1z", "11", "hrp-with.punct_", "z" * 20]
 
 
 def edpub_blake2b(seed32):
@@ -332,6 +375,39 @@ def generate(ctx):
             if r and r[0] == "ok":
                 for t in [r[1]] + mutate(r[1], rng)[:2]:
                     ctx.run(fn + "_decode", [t], "dec")
+        hrp = rng.choice(HRPS)
+        for fn in ("atom", "p2wpkh"):
+            _, r = ctx.run(fn + "_encode", [hrp, c], "rand")
+            if r and r[0] == "ok":
+                for t in [r[1], r[1].upper(), r[1][:len(hrp)] + r[1][len(hrp):].upper(), r[1].replace("k", "\u212a").upper()] + mutate(r[1], rng)[:3]:
+                    ctx.run(fn + "_decode", [rng.choice([hrp, hrp, "bc"]), t], "dec")
+                if fn == "p2wpkh":
+                    ctx.run("p2tr_decode", [hrp, r[1]], "v0-as-p2tr")
+        ta = P2TRAddrEncoder.EncodeKey(c, hrp=hrp)
+        for t in [ta, ta.upper()] + mutate(ta, rng)[:2]:
+            ctx.run("p2tr_decode", [hrp, t], "dec")
+            ctx.run("p2wpkh_decode", [hrp, t], "v1-as-p2wpkh")
+        for x in (0, 1):
+            _, r = ctx.run("avax_encode", [x, c], "rand")
+            if r and r[0] == "ok":
+                for t in [r[1], r[1][2:]] + mutate(r[1], rng)[:2]:
+                    ctx.run("avax_decode", [rng.choice([x, x, 1 - x]), t], "dec")
+        for fn, arg in (("egld", [e]), ("zil", [c])):
+            _, r = ctx.run(fn + "_encode", arg, "rand")
+            if r and r[0] == "ok":
+                for t in [r[1], r[1].upper()] + mutate(r[1], rng)[:2]:
+                    ctx.run(fn + "_decode", [t], "dec")
+        w = rng.randrange(3)
+        _, r = ctx.run("ethb32_encode", [w, c, u], "rand")
+        if r and r[0] == "ok":
+            for t in [r[1]] + mutate(r[1], rng)[:2]:
+                ctx.run("ethb32_decode", [rng.choice([w, w, (w + 1) % 3]), t], "dec")
+        bh, nv = rng.choice(["bitcoincash", "bchtest", "ecash", "simpleledger", "a1b"]), rng.choice([b"\x00", b"\x08", b"\x10"])
+        for fn in ("bch_p2pkh", "bch_p2sh"):
+            _, r = ctx.run(fn + "_encode", [bh, nv, c], "rand")
+            if r and r[0] == "ok":
+                for t in [r[1], r[1].upper()] + mutate(r[1], rng)[:2]:
+                    ctx.run("bch_decode", [bh, rng.choice([nv, nv, b"\x08"]), t], "dec")
         for fn in ("algo", "nim"):
             _, r = ctx.run(fn + "_encode", [e], "rand")
             if r and r[0] == "ok":
